@@ -136,6 +136,14 @@ pub fn cases(rng: &mut Rng, thorough: bool) -> Vec<SchedCase> {
         vec![call("boom", arg(0)), call("g", arg(0)), mk_bin("or", call("h", arg(1)), call("boom", arg(2)))],
         vec![Expr::Vec(vec![call("g", arg(0)), call("h", arg(0)), call("g", arg(0))]), mk_bin("eq", call("g", arg(3)), call("g", arg(3)))],
         vec![reff("x"), mk_bin("div", reff("y"), lit(Value::Int(0)))],
+        // references that are missing only on the branch one of the two inputs takes (x = 1 / x = 2)
+        vec![
+            iff(mk_bin("gt", reff("x"), lit(Value::Int(1))), Expr::Symbol("missing".into()), lit(Value::Int(0))),
+            mk_bin("or", mk_bin("lt", reff("x"), lit(Value::Int(2))), call("nofn", arg(0))),
+            iff(mk_bin("lt", reff("x"), lit(Value::Int(2))), reff("nofield"), call("g", arg(1))),
+        ],
+        // a cacheable call completed before a suspending one (what a dropped evaluation may leave behind)
+        vec![call("g", arg(0)), call("h", arg(1)), call("g", arg(0)), call("h", arg(2))],
     ];
     let pend_sets: Vec<[usize; 3]> = if thorough { vec![[0, 0, 0], [1, 0, 0], [1, 1, 1], [2, 1, 0], [0, 2, 1], [3, 0, 1]] } else { vec![[0, 0, 0], [1, 1, 0], [2, 0, 1]] };
     for rules in &rule_sets {
@@ -162,7 +170,7 @@ pub fn run(rep: &mut Report, driver: &str, workers: usize, thorough: bool, seed:
     let model = par_batch(driver, workers, &reqs);
     let mut sr = StreamReport::new(
         "poll-schedules",
-        "5 rulesets (cached / uncached / failing user functions, lazy and strict operators) x suspension patterns (each user-function call returns Pending 0..3 times) x cacheability; two evaluations of ONE shared RuleSet on different inputs polled by a hand-rolled executor (no-op waker) under EVERY interleaving of their polls (up to 924 schedules per case; larger cases: 400 sampled), every abandonment point of one evaluation (dropped after j polls) followed by a fresh evaluation, and 3 consecutive evaluations; compared per evaluation: outcomes and the order of its own user-function invocations, against the model's sequential result",
+        "7 rulesets (cached / uncached / failing user functions, lazy and strict operators, references missing only on the branch one input takes, a cacheable call completed before a suspending one) x suspension patterns (each user-function call returns Pending 0..3 times) x cacheability; two evaluations of ONE shared RuleSet on different inputs polled by a hand-rolled executor (no-op waker) under EVERY interleaving of their polls (up to 924 schedules per case; larger cases: 400 sampled), every abandonment point of one evaluation (dropped after j polls) followed by a fresh evaluation — with a second evaluation in flight, and alone followed by two fresh evaluations —, every sequence of three completed evaluations over the two inputs, and 3 consecutive evaluations; compared per evaluation: outcomes and the order of its own user-function invocations, against the model's sequential result",
         false,
     );
     let max_sched = if thorough { 924 } else { 300 };
@@ -262,6 +270,55 @@ pub fn run(rep: &mut Report, driver: &str, workers: usize, thorough: bool, seed:
                     if fresh != want[0] || log_of(&log, 1) != want_log[0] {
                         report("abandon", format!("after {} polls", j), format!("{} | {}", fresh, log_of(&log, 1)), format!("{} | {}", want[0], want_log[0]), "C12 abandoned-evaluation-affects-fresh", rep);
                     }
+                }
+            }
+        }
+        // (b2) abandon an evaluation after j polls with nothing else in flight, then TWO fresh evaluations (a resource that
+        //      is handed back dirty by the dropped future may only reach the second one)
+        for j in 0..n0 {
+            let r = catch_unwind(AssertUnwindSafe(|| {
+                let mut a = mk_fut(&rs, &c.facts[0]);
+                for _ in 0..j {
+                    let _ = poll_once(&mut a);
+                }
+                drop(a);
+                let mut res = vec![];
+                for k in [1usize, 0, 0] {
+                    shared.log.lock().unwrap().clear();
+                    let o = block_on(mk_fut(&rs, &c.facts[k]));
+                    let log = shared.log.lock().unwrap().clone();
+                    res.push((k, o, log_of(&log, k as i128 + 1)));
+                }
+                res
+            }));
+            sr.count(&format!("{} abandon-alone {}", ci, j), true);
+            sr.hist("kind", "abandonment-alone");
+            match r {
+                Err(p) => report("abandon-alone", format!("after {} polls", j), format!("PANIC {}", panic_msg(p)), want[0].clone(), "C12 panic", rep),
+                Ok(res) => {
+                    for (n, (k, o, l)) in res.into_iter().enumerate() {
+                        if o != want[k] || l != want_log[k] {
+                            report("abandon-alone", format!("after {} polls, fresh evaluation #{}", j, n + 1), format!("{} | {}", o, l), format!("{} | {}", want[k], want_log[k]), "C12 abandoned-evaluation-affects-fresh", rep);
+                        }
+                    }
+                }
+            }
+        }
+        // (d) histories: every sequence of three completed evaluations over the two inputs on the same object; each must
+        //     give what that input gives on its own (an earlier evaluation that failed on another input leaves nothing)
+        for h in 0..8usize {
+            let seq = [h & 1, (h >> 1) & 1, (h >> 2) & 1];
+            for (n, k) in seq.iter().enumerate() {
+                shared.log.lock().unwrap().clear();
+                let got = match catch_unwind(AssertUnwindSafe(|| block_on(mk_fut(&rs, &c.facts[*k])))) {
+                    Ok(g) => g,
+                    Err(p) => format!("PANIC {}", panic_msg(p)),
+                };
+                let log = shared.log.lock().unwrap().clone();
+                sr.count(&format!("{} history {:?} {}", ci, seq, n), true);
+                sr.hist("kind", "history");
+                if got != want[*k] || log_of(&log, *k as i128 + 1) != want_log[*k] {
+                    report("history", format!("inputs {:?}, evaluation #{}", seq, n + 1), format!("{} | {}", got, log_of(&log, *k as i128 + 1)), format!("{} | {}", want[*k], want_log[*k]), "C12 earlier-evaluation-affects-later", rep);
                 }
             }
         }
